@@ -1381,3 +1381,33 @@ Qed.
 Lemma find_roots_run_eq fuel s fs limit node :
   find_roots_run fuel (find_preds s fs) limit node = find_roots_log fuel s fs limit node.
 Proof. unfold find_roots_run, find_roots_log. rewrite findRoots_start_depth_spec. apply dfs_log_g_eq. Qed.
+
+(* ------------------------------------------------------------------ order independence (Depth <= 0)
+   Two sources that serve the same predecessor SETS (any order, any multiplicity, any descriptor
+   fields as long as both are served_ok) over the same manifests give the same SET of roots. *)
+Lemma roots_unlimited_order_independent s1 s2 fs rank1 rank2 limit node fuel1 fuel2 roots1 roots2 :
+  (forall x y, In y (map d_id (s_preds s1 x)) <-> In y (map d_id (s_preds s2 x))) ->
+  (forall f y, keep_spec s1 f y = keep_spec s2 f y) ->
+  all_served_ok s1 -> all_served_ok s2 ->
+  acyclic_source s1 rank1 -> acyclic_source s2 rank2 -> (limit <= 0)%Z ->
+  find_roots fuel1 s1 fs limit node = Some roots1 ->
+  find_roots fuel2 s2 fs limit node = Some roots2 ->
+  forall a, In a (map d_id roots1) <-> In a (map d_id roots2).
+Proof.
+  intros Hp Hk Ok1 Ok2 Ac1 Ac2 Hl F1 F2.
+  assert (HR : forall x y, followed_spec s1 fs x y <-> followed_spec s2 fs x y).
+  { intros x y. unfold followed_spec. rewrite (Hp x y). split; intros (H1 & H2); split; auto;
+      intros f Hf; [rewrite <- Hk | rewrite Hk]; auto. }
+  destruct (find_roots_unlimited_rel s1 fs rank1 limit node fuel1 roots1 (followed_spec s1 fs)
+              (fun x y => E_followed_spec s1 fs x y Ok1) Ac1 Hl F1) as (A1 & A2 & _).
+  destruct (find_roots_unlimited_rel s2 fs rank2 limit node fuel2 roots2 (followed_spec s2 fs)
+              (fun x y => E_followed_spec s2 fs x y Ok2) Ac2 Hl F2) as (B1 & B2 & _).
+  assert (Hup : forall a c, (exists k, rpath (followed_spec s1 fs) k a c) <->
+                            (exists k, rpath (followed_spec s2 fs) k a c)).
+  { intros a c. split; intros (k & P); exists k; now apply (rpath_equiv _ _ HR). }
+  intro a. split; intro Ha.
+  - apply in_map_iff in Ha. destruct Ha as (r & <- & Hr). destruct (A1 r Hr) as (U & N).
+    apply B2; [now apply Hup|]. intros y Hy. apply (N y). now apply HR.
+  - apply in_map_iff in Ha. destruct Ha as (r & <- & Hr). destruct (B1 r Hr) as (U & N).
+    apply A2; [now apply Hup|]. intros y Hy. apply (N y). now apply HR.
+Qed.
